@@ -418,6 +418,33 @@ func c08r4(c *Ctx) {
 		}
 		c.check(len(upd) > 0 && okGate, R, f.Key+": bucket roots through HTree.Update, READY buckets only", f.Pos(), "locked refresh, gated", "the upper tree no longer takes bucket roots through the locked refresh HTree.Update of READY buckets")
 	}
+	if f := c.fn(R, "store.HStore.updateNodesUpper"); f != nil {
+		info := f.Info()
+		n, bad := 0, ""
+		ast.Inspect(f.Decl.Body, func(x ast.Node) bool {
+			as, ok := x.(*ast.AssignStmt)
+			if !ok || len(as.Lhs) != 1 || as.Tok != token.ASSIGN {
+				return true
+			}
+			k, _ := prog.FieldOf(info, as.Lhs[0])
+			if k != "store.Node.hash" && k != "store.Node.count" {
+				return true
+			}
+			if v, isC := prog.ConstInt(info, as.Rhs[0]); !isC || v != 0 {
+				return true
+			}
+			n++
+			for _, a := range f.Enclosing(as) {
+				switch a.(type) {
+				case *ast.IfStmt, *ast.ForStmt, *ast.SwitchStmt:
+					bad = c.pos(as)
+				}
+			}
+			return true
+		})
+		c.check(n >= 2 && bad == "", R, f.Key+": node summary reset unconditionally before recomputation", f.Pos(), "hash = 0; count = 0 at the top",
+			"the upper-tree node is not reset on every refresh (reset at "+bad+" is conditional): the leaf of a bucket that is not READY keeps the hash/count cached by an earlier listing, so unloaded buckets still contribute to upper-level listings")
+	}
 	if f := c.fn(R, "store.HTree.Update"); f != nil {
 		for _, call := range f.CallsTo("store.HTree.updateNodes") {
 			h, ls := holds(c, f, call.Expr, lkTree)
